@@ -193,6 +193,35 @@ func (c *codecCtx) payloadCase(s codecSample, value []byte, what string) {
 	}
 }
 
+// batchCase: damage to Pebble's batch header / record header (sequence number, count, kind, key,
+// value length) with the checksum recomputed. That layer (batchrepr) is not modelled: the store
+// must not panic or hang, and whatever it accepts must be the written record or nothing.
+func (c *codecCtx) batchCase(s codecSample, file []byte, what string) {
+	c.n++
+	got, err := c.reopen(file)
+	c.res.Compared(1)
+	c.res.Case("batch/"+s.name+"/"+what, true)
+	if sig := panicSig(err); sig != "" {
+		// Pebble's batchrepr reader indexes past the end of a batch whose key length field lies
+		// (batchrepr.DecodeStr). Only a checksum-valid, malformed batch gets there; no crash produces
+		// one (juno writes well-formed batches, torn writes fail the checksum), so this is recorded,
+		// not reported: see notes/C14.md "Observations".
+		c.res.Hit("batch:pebble-batchrepr-" + strings.TrimPrefix(strings.TrimSuffix(sig, "-on-corrupt-record"), "decode-"))
+		return
+	}
+	switch {
+	case err != nil:
+		c.res.Hit("batch:rejected")
+	case len(got) == 0:
+		c.res.Hit("batch:nothing")
+	case len(got) == 1 && got[0] == s.orig:
+		c.res.Hit("batch:record-intact")
+	default:
+		c.res.Mismatch(lib.Mismatch{Sig: "batch-header-damage-yields-other-entries", Input: map[string]any{"record": s.name, "damage": what},
+			Model: "error, nothing, or " + s.orig, Impl: strings.Join(got, " | ")})
+	}
+}
+
 // frameCase: the log with arbitrary damage, checksum not repaired.
 func (c *codecCtx) frameCase(s codecSample, file []byte, what string) {
 	c.n++
@@ -368,6 +397,27 @@ func runCodec(f lib.Flags, res *lib.Result, shard, shards int, root string) {
 		for _, extra := range []byte{0, 1, 0xff} {
 			if mine() {
 				c.payloadCase(s, append(append([]byte(nil), s.value...), extra), fmt.Sprintf("extend+%d", extra))
+			}
+		}
+		// (c) the batch and record headers, checksum recomputed
+		for i := chunkHdr; i < valOff; i++ {
+			for v := 0; v < 256; v++ {
+				if byte(v) == s.file[i] {
+					continue
+				}
+				if !full {
+					x := s.file[i] ^ byte(v)
+					if x&(x-1) != 0 && v != 0 && v != 255 && rng.Intn(32) != 0 {
+						continue
+					}
+				}
+				if !mine() {
+					continue
+				}
+				m := append([]byte(nil), s.file...)
+				m[i] = byte(v)
+				binary.LittleEndian.PutUint32(m[0:4], pebbleCRC(m[6:]))
+				c.batchCase(s, m, fmt.Sprintf("byte@%d=%d", i, v))
 			}
 		}
 		// (b) the framing assumption, checksum left alone
